@@ -60,6 +60,13 @@ BASES = [
     [["Select", "lambda e: e.name == 'mu'"]],
     [["SelectMany", "lambda e: e.jets.Select(lambda j: (j.pt, e.x))"], ["Where", "lambda p: p[0] > p[1]"]],
     [["Select", "lambda e: e.tracks('\u03bc+', 'caf\u00e9')"], ["Where", "lambda t: t.q != 'e\u2212'"]],
+    # text that looks like something a serialiser might want to tidy up: a pasted object repr,
+    # dump-like syntax, quotes / escapes / control characters, empty and long strings, bytes
+    [["Select", "lambda e: e.coll('<Jet object at 0x1a2b>')"], ["Where", "lambda c: c.n > 0"]],
+    [["Select", "lambda e: e.get(\"Constant(value=1)\", 'Name(id=\\'e\\', ctx=Load())')"]],
+    [["Select", "lambda e: e.tag == 'a\\nb\\t\\\\c\\x00d'"], ["Where", "lambda f: f != ''"]],
+    [["Select", "lambda e: e.br(b'raw\\x00', 'it\\'s \"q\"', ' padded ')"]],
+    [["Select", "lambda e: e.path('/data/run_00012345/file_000000000000000000000000000000000000001.root')"]],
 ]
 IMPORTS = ["func_adl", "func_adl.ast", "func_adl.ast.ast_hash", "func_adl.ast.function_simplifier",
            "func_adl.type_based_replacement", "func_adl.util_ast", "func_adl.object_stream",
@@ -92,6 +99,25 @@ class _Edit(ast.NodeTransformer):
             hit = ast.Constant(n.value + 1)
         elif k == "const_value" and isinstance(n, ast.Constant) and isinstance(n.value, str):
             hit = ast.Constant(n.value + "x")
+        elif k == "const_text" and isinstance(n, ast.Constant) and isinstance(n.value, (str, bytes)) and len(n.value) > 0:
+            # a small change INSIDE the text: one character, a deleted run, a swap, padding
+            v, how = n.value, self.target % 5
+            mid = len(v) // 2
+            if isinstance(v, bytes):
+                alt = v[:mid] + bytes([(v[mid] + 1) % 256]) + v[mid + 1:] if how % 2 else v + b" "
+            elif how == 0 and " at 0x" in v:
+                i = v.index(" at 0x") + 6
+                alt = v[:i] + ("7" if v[i] != "7" else "8") + v[i + 1:]
+            elif how == 1 and " at " in v and ">" in v:
+                alt = v[:v.index(" at ")] + v[v.rindex(">"):]
+            elif how == 2 and len(v) > 1 and v[mid - 1] != v[mid]:
+                alt = v[:mid - 1] + v[mid] + v[mid - 1] + v[mid + 1:]
+            elif how == 3:
+                alt = v + " "
+            else:
+                alt = v[:mid] + chr(ord(v[mid]) + 1) + v[mid + 1:]
+            if alt != v:
+                hit = ast.Constant(alt)
         elif k == "unicode" and isinstance(n, ast.Constant) and isinstance(n.value, str) and any(ord(c) > 127 for c in n.value):
             # another character outside ASCII (and, where it was one, outside Latin-1)
             hit = ast.Constant("".join((chr(ord(c) + 1) if ord(c) > 127 else c) for c in n.value))
@@ -146,7 +172,7 @@ class _Edit(ast.NodeTransformer):
         return n
 
 
-EDITS = ["operator", "name", "const_value", "const_type", "arg_order", "nesting_add",
+EDITS = ["operator", "name", "const_value", "const_text", "const_type", "arg_order", "nesting_add",
          "nesting_remove", "wrap", "param", "stage_op", "drop_stage", "dup_stage", "unicode",
          "unicode_form"]
 
